@@ -27,7 +27,9 @@ MaxNotes == 6     \* failing probes recorded per scene (all are counted)
 PointOf(g, iz, i) ==
   LET ix == (i - 1) % g.n
       iy == (i - 1) \div g.n
-  IN <<g.lo[1] + ix * g.step, g.lo[2] + iy * g.step, g.lo[3] + iz * g.step, 1>>
+  IN \* half-lattice: coordinate = lo + i*step + off/2 (off in {0, 1}), homogeneous with D = 2
+     <<2 * (g.lo[1] + ix * g.step) + g.off[1], 2 * (g.lo[2] + iy * g.step) + g.off[2],
+       2 * (g.lo[3] + iz * g.step) + g.off[3], 2>>
 
 \* <<class, expected, reported, point>>
 Classify(rec, i) ==
@@ -82,7 +84,7 @@ TProbes ==
          okexp(s) == Cardinality({i \in DOMAIN res : res[i][1] = "ok" /\ s[res[i][2]]})
      IN
      /\ viol' = viol \cup {<<"C09.PointInExpectedVolume", sc.id,
-                             [p |-> <<res[i][4][1], res[i][4][2], res[i][4][3]>>,
+                             [p2 |-> <<res[i][4][1], res[i][4][2], res[i][4][3]>>,
                               expected |-> res[i][2], reported |-> res[i][3]]>> : i \in noted}
      /\ stat' = [stat EXCEPT !.probes = @ + Len(Rec.lab),
                              !.compared = @ + Count(res, "ok") + Count(res, "bad"),
